@@ -16,7 +16,7 @@ from ..core import repo
 from ..explore.ball import Space
 from ..rtfreader.reader import parse
 from ..spec import docspec
-from ..spec.figures import make_jpeg, make_png
+from ..spec.figures import make_emf, make_jpeg, make_png
 
 PID = "C01"
 LEVEL = "exploration"
@@ -79,7 +79,7 @@ MULTI_DIMS = {
 }
 FIG_DIMS = {
     "nfig": [1, 2, 3],
-    "fmt": ["png", "jpeg", "mixed"],
+    "fmt": ["png", "jpeg", "mixed", "emf"],
     "title": [1, 0, 2], "subline": [False, True],
     "footnote": [None, "para"], "source": [None, "para"],
     "page_header": [None, "default", "text"], "page_footer": [None, "text"],
@@ -206,11 +206,12 @@ def fig_files(nfig, fmt):
     os.makedirs(wd, exist_ok=True)
     out = []
     for i in range(nfig):
-        f = fmt if fmt != "mixed" else ("png", "jpeg")[i % 2]
-        p = os.path.join(wd, f"fig{i}.{'png' if f == 'png' else 'jpg'}")
+        f = fmt if fmt != "mixed" else ("png", "jpeg", "emf")[i % 3]
+        p = os.path.join(wd, f"fig{i}.{ {'png': 'png', 'jpeg': 'jpg', 'emf': 'emf'}[f] }")
         if not os.path.exists(p):
             with open(p, "wb") as fh:
-                fh.write(make_png(5 + i, 4, bytes(range(50))) if f == "png" else make_jpeg(6, 3 + i, bytes(range(60))))
+                fh.write(make_png(5 + i, 4, bytes(range(50))) if f == "png" else make_jpeg(6, 3 + i, bytes(range(60))) if f == "jpeg"
+                         else make_emf(bytes(range(70))))
         out.append(p)
     return out
 
